@@ -329,8 +329,26 @@ impl Check for C18 {
             proptest::sample::select(NAMES.to_vec()),
             proptest::sample::select((1u128..=6).map(Uuid::from_u128).collect::<Vec<_>>()),
             proptest::sample::select(HOSTS.to_vec()),
+            // the metadata key that carries the player count: keys are case-sensitive and used as configured
+            prop_oneof![3 => Just("players"), 1 => Just("Players"), 1 => Just("playerCount"), 1 => Just("PLAYERS"), 1 => Just("players online")],
+            prop::bool::weighted(0.85),
         )
-            .prop_map(|(chain, strategy, targets, name, player_id, host)| Case { chain, strategy, targets, player_name: name.to_string(), player_id, host: host.to_string() })
+            .prop_map(|(chain, mut strategy, mut targets, name, player_id, host, count_key, field_follows)| {
+                if count_key != "players" {
+                    for t in targets.iter_mut() {
+                        if let Some(c) = t.meta.remove("players") {
+                            t.meta.insert(count_key.to_string(), c);
+                        }
+                    }
+                    if let Strat::PlayerFill { field, .. } = &mut strategy {
+                        // mostly the configured field is that key; sometimes it differs from it only in case
+                        if field == "players" && field_follows {
+                            *field = count_key.to_string();
+                        }
+                    }
+                }
+                Case { chain, strategy, targets, player_name: name.to_string(), player_id, host: host.to_string() }
+            })
             .boxed()
     }
     fn cases(&self, tier: Tier) -> u64 {
